@@ -138,12 +138,15 @@ fn histories(ctx: &Ctx, thorough: bool) {
     // baselines: each call on its own freshly loaded sprite
     let base: Vec<u64> = CALLS.iter().map(|(_, c)| c(&fresh())).collect();
     let base_obs = hash64(&observe::observe(&fresh(), &want));
+    // quick: length <= 4 over all calls; thorough: length <= 5 over all calls and length 6 over the calls that return normally
     let depth = if thorough { 6 } else { 4 };
+    let full_depth = if thorough { 5 } else { 4 };
     let fam = format!("histories-depth{}", depth);
     if ctx.wants_family(&fam) {
         let n = CALLS.len();
-        let total: u64 = (0..=depth as u32).map(|d| (n as u64).pow(d)).sum();
-        ctx.family(&fam, total, &format!("every sequence with repetition of length <= {} over {} representative accessor calls on one sprite instance (histories are not merged); every call compared with the same call on a freshly loaded sprite, and a full observation at the end with the fresh one", depth, n), true);
+        let nn = (0..n).filter(|i| !panics(*i)).count();
+        let total: u64 = (0..=full_depth as u32).map(|d| (n as u64).pow(d)).sum::<u64>() + if depth > full_depth { (nn as u64).pow(depth as u32) } else { 0 };
+        ctx.family(&fam, total, &format!("every sequence with repetition of length <= {} over {} representative accessor calls ({} of them pass out-of-range arguments, panic and are caught){} on one sprite instance (histories are not merged); every call compared with the same call on a freshly loaded sprite, and a full observation at the end with the fresh one", full_depth, n, n - nn, if depth > full_depth { format!(", and every sequence of length {} over the {} calls that return normally", depth, nn) } else { String::new() }), true);
         // parallel over the first two calls
         let seeds: Vec<Vec<usize>> = (0..n).flat_map(|a| (0..n).map(move |b| vec![a, b])).collect();
         let shorter: Vec<Vec<usize>> = std::iter::once(vec![]).chain((0..n).map(|a| vec![a])).collect();
@@ -182,8 +185,14 @@ fn histories(ctx: &Ctx, thorough: bool) {
             let mut stack: Vec<Vec<usize>> = vec![s.clone()];
             while let Some(h) = stack.pop() {
                 run_one(&h);
-                if h.len() < depth {
+                if h.len() < full_depth {
                     for c in 0..n {
+                        let mut h2 = h.clone();
+                        h2.push(c);
+                        stack.push(h2);
+                    }
+                } else if h.len() < depth && h.iter().all(|i| !panics(*i)) {
+                    for c in (0..n).filter(|c| !panics(*c)) {
                         let mut h2 = h.clone();
                         h2.push(c);
                         stack.push(h2);
@@ -262,27 +271,86 @@ fn cross_load(ctx: &Ctx, thorough: bool) {
     files.push(("d1i".into(), gen::d1(&Fmt::Indexed(4)).encode()));
     files.push(("subject".into(), subject().encode()));
     files.push(("wide".into(), gen::wide(2, 300, 2).encode()));
-    // two files that differ in one pixel / one palette entry only (a cache keyed too coarsely confuses them)
+    files.push(("d1g".into(), gen::d1(&Fmt::Gray).encode()));
+    // files that differ from another one in content only - same ids, counts, sizes, formats (a cache keyed
+    // too coarsely confuses them)
     {
         let mut f = subject();
         for c in f.frames[0].chunks.iter_mut() {
             if let Body::Palette(p) = &mut c.body {
-                p.entries[3].rgba = [250, 1, 2, 255];
-            }
-        }
-        files.push(("subject with another palette entry 3".into(), f.encode()));
-        let mut f = gen::d1(&Fmt::Rgba);
-        'o: for fr in f.frames.iter_mut() {
-            for c in fr.chunks.iter_mut() {
-                if let Body::Cel(Cel { body: CelBody::Raw { data, .. } | CelBody::Compressed { data, .. }, .. }) = &mut c.body {
-                    if !data.is_empty() {
-                        data[0] ^= 0x55;
-                        break 'o;
-                    }
+                for e in p.entries.iter_mut() {
+                    e.rgba = [e.rgba[0] ^ 0x55, e.rgba[1] ^ 0x33, e.rgba[2] ^ 0x0f, e.rgba[3]];
                 }
             }
         }
-        files.push(("d1 with one pixel changed".into(), f.encode()));
+        files.push(("subject with every palette colour changed".into(), f.encode()));
+        let mut f = subject();
+        for c in f.frames[0].chunks.iter_mut() {
+            if let Body::Tileset(t) = &mut c.body {
+                t.pixels.reverse();
+            }
+        }
+        files.push(("subject with the tileset's pixel bytes reversed".into(), f.encode()));
+        for (nm, fmt) in [("d1", Fmt::Rgba), ("d1g", Fmt::Gray)] {
+            let mut f = gen::d1(&fmt);
+            for fr in f.frames.iter_mut() {
+                for c in fr.chunks.iter_mut() {
+                    match &mut c.body {
+                        Body::Cel(Cel { body: CelBody::Raw { data, .. } | CelBody::Compressed { data, .. }, .. }) => {
+                            if !data.is_empty() {
+                                data[0] ^= 0x55;
+                            }
+                        }
+                        Body::Tileset(t) => {
+                            let k = t.pixels.len() - 1;
+                            t.pixels[k] ^= 0x2a;
+                        }
+                        _ => {}
+                    }
+                }
+            }
+            files.push((format!("{} with one byte of every cel and tileset changed", nm), f.encode()));
+        }
+    }
+    // the same layer tree with different visible flags
+    files.push(("forest [0,1,1,0] visible 1011".into(), crate::props::c09::forest_sprite(&[0, 1, 1, 0], 0b1011).encode()));
+    files.push(("forest [0,1,1,0] visible 0110".into(), crate::props::c09::forest_sprite(&[0, 1, 1, 0], 0b0110).encode()));
+    // files that are refused, each at a different stage (what a failed load leaves behind must not matter)
+    {
+        // an indexed sprite whose second cel uses an index the palette lacks
+        let fmt = Fmt::Indexed(0);
+        let mut f = gen::file(4, 4, &fmt, &[10]);
+        f.frames[0].push(new_palette(0, pal_entries(4, 2)));
+        f.frames[0].push(Body::Layer(Layer::image("a")));
+        f.frames[0].push(Body::Layer(Layer::image("b")));
+        f.frames[0].push(raw_cel(0, 0, 0, 255, 2, 2, vec![1, 2, 3, 1]));
+        f.frames[0].push(raw_cel(1, 0, 0, 255, 2, 2, vec![1, 2, 9, 1]));
+        files.push(("refused: palette index 9 of 4".into(), f.encode()));
+        // a compressed cel whose stream is damaged after 40 KB of output
+        let fmt = Fmt::Rgba;
+        let mut f = gen::file(4, 4, &fmt, &[10]);
+        f.frames[0].push(Body::Layer(Layer::image("a")));
+        let px = gen::noise(128 * 128 * 4, 5);
+        let mut z = zlib(&px, 6);
+        let k = z.len() * 2 / 3;
+        for b in z[k..k + 8].iter_mut() {
+            *b ^= 0xff;
+        }
+        f.frames[0].push(Body::Cel(Cel::new(0, 0, 0, 255, CelBody::Compressed { w: 128, h: 128, data: vec![], z: Zlib::Verbatim(z) })));
+        files.push(("refused: deflate stream damaged two thirds in (64 KB cel)".into(), f.encode()));
+        // checksum-only damage: the whole payload inflates, the Adler-32 at the end is wrong
+        let mut f = gen::file(4, 4, &fmt, &[10]);
+        f.frames[0].push(Body::Layer(Layer::image("a")));
+        let mut z = zlib(&px, 6);
+        let k = z.len() - 1;
+        z[k] ^= 0xff;
+        f.frames[0].push(Body::Cel(Cel::new(0, 0, 0, 255, CelBody::Compressed { w: 128, h: 128, data: vec![], z: Zlib::Verbatim(z) })));
+        files.push(("refused or accepted: wrong Adler-32 after a complete 64 KB payload".into(), f.encode()));
+        let b = gen::b2().encode();
+        files.push(("refused: b2 cut in the middle".into(), b[..b.len() / 2].to_vec()));
+        let mut f = gen::b1();
+        f.frames[0].push(link_cel(0, 0, 0, 255, 2));
+        files.push(("refused or accepted: b1 with an extra linked cel".into(), f.encode()));
     }
     let n = files.len();
     let depth = if thorough { 4 } else { 3 };
@@ -301,7 +369,7 @@ fn cross_load(ctx: &Ctx, thorough: bool) {
         frontier = next;
     }
     let only_idx: Option<usize> = ctx.only.as_ref().and_then(|(_, c)| c.strip_prefix("idx=").and_then(|r| r.split(' ').next()).and_then(|s| s.parse().ok()));
-    ctx.family(fam, seqs.len() as u64, &format!("every sequence of length <= {} of {} files (bases, D1, the C16 subjects, and two files that differ from another one in a single palette entry / pixel) loaded and fully walked one after the other in one worker process; status and observation digest of every load must equal those of the same file loaded alone in a fresh process", depth, n), true);
+    ctx.family(fam, seqs.len() as u64, &format!("every sequence of length <= {} of {} files (bases, D1 in three formats, the C16 subjects, four files that differ from another one only in palette colours / tileset bytes / one byte per cel, one layer tree under two visibility assignments, and five files that are refused at different stages: missing palette index, damaged deflate stream after 40 KB of output, wrong Adler-32, truncation, bad link) loaded and fully walked one after the other in one worker process; status and observation digest of every load must equal those of the same file loaded alone in a fresh process", depth, n), true);
     let pool = Pool::new("checked", 16, 120.0);
     let res: Mutex<HashMap<usize, Vec<(u32, u64, String)>>> = Mutex::new(HashMap::new());
     pool.run(
@@ -352,7 +420,15 @@ fn schedules(ctx: &Ctx, thorough: bool) {
     }
     let bytes = subject().encode();
     let Loaded::Ok(file) = load(&bytes) else { std::process::exit(2) };
-    let base: Vec<u64> = CALLS.iter().map(|(_, c)| c(&file)).collect();
+    // baselines: each call on its own freshly loaded sprite (a call that panics there has no baseline
+    // and is left to the histories family)
+    let base: Vec<u64> = CALLS
+        .iter()
+        .map(|(_, c)| match load(&bytes) {
+            Loaded::Ok(f) => std::panic::catch_unwind(std::panic::AssertUnwindSafe(|| c(&f))).unwrap_or(super::c16_subject::PANICKED),
+            _ => std::process::exit(2),
+        })
+        .collect();
     let file = Arc::new(file);
     let base = Arc::new(base);
     // configurations: which calls each thread performs
@@ -516,7 +592,13 @@ fn free_running(ctx: &Ctx) {
     }
     let bytes = subject().encode();
     let Loaded::Ok(file) = load(&bytes) else { std::process::exit(2) };
-    let base: Vec<u64> = CALLS.iter().map(|(_, c)| c(&file)).collect();
+    let base: Vec<u64> = CALLS
+        .iter()
+        .map(|(_, c)| match load(&bytes) {
+            Loaded::Ok(f) => std::panic::catch_unwind(std::panic::AssertUnwindSafe(|| c(&f))).unwrap_or(super::c16_subject::PANICKED),
+            _ => std::process::exit(2),
+        })
+        .collect();
     let bad = AtomicU64::new(0);
     let iters = 300u64;
     std::thread::scope(|s| {
@@ -525,7 +607,11 @@ fn free_running(ctx: &Ctx) {
             s.spawn(move || {
                 for k in 0..iters {
                     let i = ((k * 7 + t * 3) % CALLS.len() as u64) as usize;
-                    if (CALLS[i].1)(file) != base[i] {
+                    if panics(i) {
+                        continue;
+                    }
+                    let r = std::panic::catch_unwind(std::panic::AssertUnwindSafe(|| (CALLS[i].1)(file)));
+                    if r.ok() != Some(base[i]) {
                         bad.fetch_add(1, Relaxed);
                     }
                 }
